@@ -4,6 +4,8 @@ runs the corresponding *model* function, prints one JSON line.
 -/
 import Lean.Data.Json
 import Vicut.Model.Format
+import Vicut.Model.Args
+import Vicut.Model.Linewise
 
 open Lean Vicut
 
@@ -49,11 +51,38 @@ def opFormat (req : Json) : Json :=
 def opLines (req : Json) : Json :=
   Json.mkObj [("lines", Json.arr ((getLines (jstr req "text").toList).map J).toArray)]
 
+partial def cmdJson : Cmd → Json
+  | .next => Json.mkObj [("t", "next")]
+  | .move k => Json.mkObj [("t", "move"), ("arg", Json.mkObj [("lit", J k)])]
+  | .cut none k => Json.mkObj [("t", "cut"), ("arg", Json.mkObj [("lit", J k)])]
+  | .cut (some n) k => Json.mkObj [("t", "cut"), ("name", J n), ("arg", Json.mkObj [("lit", J k)])]
+  | .rep body n => Json.mkObj [("t", "repeat"), ("count", Json.mkObj [("count", n)]), ("body", Json.arr (body.map cmdJson).toArray)]
+  | .glob p pol thn he els => Json.mkObj [("t", "global"), ("pattern", Json.mkObj [("lit", J p)]), ("polarity", pol),
+      ("then", Json.arr (thn.map cmdJson).toArray), ("else", if he then Json.arr (els.map cmdJson).toArray else Json.null)]
+
+def optJ (o : Option Str) : Json := match o with | some s => J s | none => Json.null
+
+def optsJson (o : POpts) : Json :=
+  Json.mkObj [("delimiter", optJ o.delimiter), ("template", optJ o.template), ("edit_inplace", o.inplace),
+    ("json", o.json), ("trace", o.trace), ("linewise", o.linewise), ("trim_fields", o.trimFields),
+    ("keep_mode", o.keepMode), ("backup_files", o.backup), ("single_thread", o.serial),
+    ("global_uses_line_numbers", o.globalLineNumbers), ("silent", o.silent),
+    ("cmds", Json.arr (o.cmds.map cmdJson).toArray), ("files", Json.arr (o.files.map J).toArray)]
+
+/-- `{"op":"parse_argv","argv":[...],"existing":[...]}`: the model of `Opts::parse`. -/
+def opParseArgv (req : Json) : Json :=
+  let argv := (jarr req "argv").toList.map (fun j => (j.getStr?.toOption.getD "").toList)
+  let existing := (jarr req "existing").toList.map (fun j => (j.getStr?.toOption.getD "").toList)
+  match parseOpts (fun p => existing.contains p) argv with
+  | .ok o => Json.mkObj [("opts", optsJson o)]
+  | .error _ => Json.mkObj [("exit", 1)]
+
 def dispatch (req : Json) : Json :=
   match jstr req "op" with
   | "ping" => Json.mkObj [("pong", true)]
   | "format" => opFormat req
   | "lines" => opLines req
+  | "parse_argv" => opParseArgv req
   | op => Json.mkObj [("err", Json.str s!"unknown op {op}")]
 
 partial def loop (h : IO.FS.Stream) (out : IO.FS.Stream) : IO Unit := do
